@@ -7,7 +7,7 @@ RULE = ("Cases: capacity 1..6, key type int/str/tuple, a history of <=40 operati
         "delete, membership, len, keys(), values(), items(), get, pop, popitem, clear, update, setdefault, == , and (a sixth of the histories) up to three runs of 3..1025 lookups of one key; after every "
         "operation content, size<=max_size, KeyError parity and iteration order are compared with a candidate-set "
         "reference model (membership may or may not count as a use; any order is admissible after values/items/==). "
-        "Every call runs under a line-count fuel, so non-termination is a verdict. E5: all histories up to length 3 (quick) / 4 "
+        "A quarter of the drawn histories are sparse: no iteration after the steps, only len(), the operations' own results, the key set at evictions and a full observation after the last step. Every call runs under a line-count fuel, so non-termination is a verdict. E5: all histories up to length 3 (quick) / 4 "
         "(thorough) over 15 operations x 3 keys and length 4 / 5 over store/lookup/delete, capacities 1..2. Non-trivial: an eviction "
         "after a hit or re-store changed the recency order, or a view operation (values/items/==) on >=2 entries. "
         "Distinct = distinct case JSON.")
@@ -20,7 +20,7 @@ SHARDS = {"quick": 12, "thorough": 14}
 def run_case(case, ctx):
     if len(case["ops"]) >= 10:
         ctx.label("hist>=10")
-    M.drive(ctx, "lfu", case["cap"], case["ops"], case.get("keytype", "int"))
+    M.drive(ctx, "lfu", case["cap"], case["ops"], case.get("keytype", "int"), case.get("observe") == "sparse")
 
 
 def strategies(tier):
